@@ -757,7 +757,7 @@ func TestVerif_C14_Accum(t *testing.T) {
 	R := vkit.New("C14")
 	defer R.Finish()
 	runtime.GOMAXPROCS(2)
-	R.Rule = "case = block object list [continuation frames of the metadata in some storage order..., Transaction] (optionally followed by / mixed with a second transaction and its frames) x (frame count x fan-out x checksum x link order x storage order) x (no fault | one single fault); ObjectsToTransactionsAndMetadata must yield the transaction and the parse of the ORIGINAL metadata when fault-free, and an error or the original under a fault; non-trivial = a fault is injected or the metadata has more than one frame"
+	R.Rule = "case = block object list [continuation frames of the metadata (or, with single-frame metadata, of the transaction's own bytes: 2..8 frames x fan-out 1..3) in some storage order..., Transaction] (optionally followed by / mixed with a second transaction and its frames) x (frame count x fan-out x checksum x link order x storage order) x (no fault | one single fault); ObjectsToTransactionsAndMetadata must yield the transaction and the parse of the ORIGINAL metadata when fault-free, and an error or the original under a fault; non-trivial = a fault is injected or the metadata has more than one frame"
 	groups := c14aGroups(vkit.Thorough(), R)
 
 	if rp := vkit.ReplayRequest(); rp != nil {
@@ -776,29 +776,75 @@ func TestVerif_C14_Accum(t *testing.T) {
 		return
 	}
 
-	// observation (not decided against): split transaction DATA is rejected by construction
-	if si, _ := vkit.Shard(); si == 0 {
-		bt := c14aBuild(64, c14Shape{FrameSize: 1 << 20, FanOut: 2, Sum: "crc64"})
-		txb := c14Tx(1)
-		ch := c14Build(c14Shape{Len: len(txb), FrameSize: (len(txb) + 2) / 3, FanOut: 2, Sum: "crc64"}, txb)
-		first, store := c14Apply(ch, ch, c14Fault{Kind: "none"})
-		var objs []ObjectWithMetadata
-		for p := 1; p < ch.N; p++ {
-			objs = append(objs, ObjectWithMetadata{Cid: ch.Cids[p], ObjectData: store[ch.Cids[p]]})
+	// the transaction's own bytes in linked frames (single-frame metadata): frame counts 2..8 x fan-out 1..3 x
+	// (no fault | every single fault); the continuation frames precede the Transaction object like the metadata's
+	{
+		txa, txb := c14Tx(1), c14Tx(1001)
+		if len(txa) != len(txb) {
+			R.Internal("harness: the two transactions differ in length")
+			return
 		}
-		objs = append(objs, c14aTxObject(first, bt.a.Typed[0], 0))
-		func() {
-			defer func() {
-				if r := recover(); r != nil {
-					R.Violation("C14|panic|none|ObjectsToTransactionsAndMetadata(split-data)|"+c14PanicSite(debug.Stack()), fmt.Sprint(r), nil)
+		meta := c14aBuild(64, c14Shape{FrameSize: 1 << 20, FanOut: 2, Sum: "crc64"})
+		block := &ipldbindcode.Block{Kind: int(iplddecoders.KindBlock), Slot: 1234, Meta: ipldbindcode.SlotMeta{Parent_slot: 1233, Blocktime: 1_600_000_000}}
+		didx := int64(0)
+		for n := 2; n <= 8; n++ {
+			for fan := 1; fan <= 3; fan++ {
+				shape := c14Shape{Len: len(txa), FrameSize: (len(txa) + n - 1) / n, FanOut: fan, Sum: "crc64"}
+				cha, chb := c14Build(shape, txa), c14Build(shape, txb)
+				for _, f := range c14Faults(shape) {
+					mine := vkit.Mine(didx)
+					didx++
+					if !mine {
+						continue
+					}
+					first, store := c14Apply(cha, chb, f)
+					var objs []ObjectWithMetadata
+					for p := 1; p < cha.N; p++ {
+						if raw, ok := store[cha.Cids[p]]; ok {
+							objs = append(objs, ObjectWithMetadata{Cid: cha.Cids[p], Offset: uint64(p), SectionLength: uint64(len(raw) + 38), ObjectData: raw})
+						}
+					}
+					if f.Kind == "swap-node" {
+						for p := 1; p < chb.N; p++ {
+							raw := c14EncodeFrame(&chb.Typed[p])
+							objs = append(objs, ObjectWithMetadata{Cid: chb.Cids[p], Offset: uint64(100 + p), SectionLength: uint64(len(raw) + 38), ObjectData: raw})
+						}
+					}
+					objs = append(objs, c14aTxObject(first, meta.a.Typed[0], 0))
+					rp := map[string]interface{}{"variant": "accum", "tx_data_frames": cha.N, "fan_out": fan, "fault": f}
+					R.Case(true, "")
+					func() {
+						defer func() {
+							if r := recover(); r != nil {
+								R.Outcome("tx-data:" + f.Kind + ":panic")
+								R.Violation("C14|panic|"+f.Kind+"|ObjectsToTransactionsAndMetadata(transaction data)|"+c14PanicSite(debug.Stack()), fmt.Sprintf("transaction data in %d frames, fault %+v: panic %v", cha.N, f, r), rp)
+							}
+						}()
+						txs, err := ObjectsToTransactionsAndMetadata(block, objs)
+						switch {
+						case err != nil && f.Kind == "none":
+							R.Outcome("tx-data:none:error")
+							R.Violation("C14|fault-free-error|ObjectsToTransactionsAndMetadata(transaction data)", fmt.Sprintf("fault-free transaction of %d bytes stored in %d linked frames (fan-out %d), all frames among the preceding objects, is rejected: %v", len(txa), cha.N, fan, err), rp)
+						case err != nil:
+							R.Outcome("tx-data:" + f.Kind + ":error")
+						default:
+							defer PutTransactionWithSlotSlice(txs)
+							ok := len(txs) == 1
+							d := fmt.Sprintf("%d transactions returned", len(txs))
+							if ok {
+								ok, _, d = c14aCheckTx(txs[0], txa, meta.plainA)
+							}
+							if ok {
+								R.Outcome("tx-data:" + f.Kind + ":original")
+							} else {
+								R.Outcome("tx-data:" + f.Kind + ":wrong")
+								R.Violation("C14|wrong-bytes|"+f.Kind+"|ObjectsToTransactionsAndMetadata(transaction data)", fmt.Sprintf("transaction data in %d frames, fault %+v: no error but %s", cha.N, f, d), rp)
+							}
+						}
+					}()
 				}
-			}()
-			_, err := ObjectsToTransactionsAndMetadata(&ipldbindcode.Block{}, objs)
-			R.Note("observation: transaction DATA split into %d frames -> ObjectsToTransactionsAndMetadata returns err=%v (a rejection by construction, not decided against)", ch.N, err)
-			if err == nil {
-				R.Add("observation:split_transaction_data_accepted_by_accum", 1)
 			}
-		}()
+		}
 	}
 
 	idx := int64(0)
